@@ -96,7 +96,7 @@ pub fn gen_cfg(r: &mut Rng, rg: &Regime) -> GenCfg {
     let pool: Vec<String> = POOL[..rg.pool.min(POOL.len())].iter().map(|s| s.to_string()).collect();
     let mut markers = vec![];
     for d in convs.iter().filter(|c| c.as_str() != "base").chain(quotes.iter()).chain(std::iter::once(&"base".to_string())) {
-        markers.push((d.clone(), *r.pick(&[MarkerKind::NoMarker, MarkerKind::Coin, MarkerKind::Restricted, MarkerKind::NoMarker, MarkerKind::Coin, MarkerKind::Restricted, MarkerKind::NoMarker, MarkerKind::Coin, MarkerKind::Restricted, MarkerKind::EmptyResponse])));
+        markers.push((d.clone(), *r.pick(&[MarkerKind::NoMarker, MarkerKind::Coin, MarkerKind::Restricted, MarkerKind::NoMarker, MarkerKind::Coin, MarkerKind::Restricted, MarkerKind::NoMarker, MarkerKind::Coin, MarkerKind::Restricted, MarkerKind::EmptyResponse, MarkerKind::RestrictedFinalized])));
     }
     let mut approvers: Vec<String> = (0..1 + { let n = if r.chance(20) { 4 } else { 2 }; r.below(n) }).map(|_| r.pick(&pool).clone()).collect();
     approvers.dedup();
@@ -199,6 +199,18 @@ fn fresh_id(r: &mut Rng, g: &mut GenState, book: &Book, for_ask: bool) -> String
             let id = (*r.pick(&other)).clone();
             let taken = if for_ask { book.asks.contains_key(&id) } else { book.bids.contains_key(&id) };
             if !taken && crate::model::canon_uuid(&id) {
+                return id;
+            }
+        }
+    }
+    if r.chance(12) {
+        // the canonical hyphenated spelling of an id that sits on the book under its legacy un-hyphenated key
+        let legacy: Vec<&String> = book.asks.keys().chain(book.bids.keys()).filter(|k| k.len() == 32 && k.bytes().all(|b| b.is_ascii_hexdigit())).collect();
+        if !legacy.is_empty() {
+            let k = *r.pick(&legacy);
+            let id = format!("{}-{}-{}-{}-{}", &k[0..8], &k[8..12], &k[12..16], &k[16..20], &k[20..32]);
+            let taken = if for_ask { book.asks.contains_key(&id) } else { book.bids.contains_key(&id) };
+            if !taken {
                 return id;
             }
         }
@@ -325,6 +337,11 @@ pub fn gen_step(r: &mut Rng, rg: &Regime, w: &World, g: &mut GenState) -> Op {
 }
 
 fn rate_variant(r: &mut Rng, rate: &str) -> String {
+    if r.chance(30) {
+        // differs from the stored rate only beyond its last written decimal
+        let base = if rate.contains('.') { rate.to_string() } else { format!("{}.", rate) };
+        return format!("{}{}", base, r.pick(&["4", "04", "49", "001", "0001"]));
+    }
     match r.below(5) {
         0 => rate.to_string(),
         1 => if rate.contains('.') { format!("{}0", rate) } else { format!("{}.0", rate) },
@@ -415,7 +432,7 @@ pub fn gen_chain_change(r: &mut Rng, w: &World, pool: &[String]) -> Op {
     if r.chance(50) {
         let denoms: Vec<String> = w.chain.markers.keys().cloned().collect();
         if !denoms.is_empty() {
-            return Op::SetMarker { denom: r.pick(&denoms).clone(), kind: *r.pick(&[MarkerKind::NoMarker, MarkerKind::Coin, MarkerKind::Restricted]) };
+            return Op::SetMarker { denom: r.pick(&denoms).clone(), kind: *r.pick(&[MarkerKind::NoMarker, MarkerKind::Coin, MarkerKind::Restricted, MarkerKind::RestrictedFinalized, MarkerKind::EmptyResponse]) };
         }
     }
     if r.chance(15) {
